@@ -203,6 +203,31 @@ theorem frag_header_surjective (fr : Frag) : mkFrag fr.tid fr.seq fr.start fr.fi
 theorem next_seq_mod16 (s : UInt8) : (nextSeq s).toNat < 16 ∧ (nextSeq s).toNat = (s.toNat + 1) % 256 % 16 :=
   Lemmas.nextSeq_lt_bv s.toBitVec
 
+/-! The header functions of the model ARE the code's: `Dtn7.Gen.C17.Go.*` is produced on every run by the
+Go→Lean translator (`extract/golean.go`) from `pkg/cla/bbc/transmission_fragment.go`; the comparison runs
+over all 256 identifier bytes / sequence numbers and all flag combinations (kernel `decide`). -/
+theorem go_bbc_header_is_model :
+    (∀ b : BitVec 8, ∀ s e f : Bool,
+      (Dtn7.Gen.C17.Go.NewFragment 0 (UInt8.ofBitVec b) s e f).identifier = mkIdent (UInt8.ofBitVec b) s e f) ∧
+    (∀ b : BitVec 8,
+      Dtn7.Gen.C17.Go.Fragment.SequenceNumber ⟨0, UInt8.ofBitVec b⟩ = Frag.seq ⟨0, UInt8.ofBitVec b, []⟩ ∧
+      Dtn7.Gen.C17.Go.Fragment.StartBit ⟨0, UInt8.ofBitVec b⟩ = Frag.start ⟨0, UInt8.ofBitVec b, []⟩ ∧
+      Dtn7.Gen.C17.Go.Fragment.EndBit ⟨0, UInt8.ofBitVec b⟩ = Frag.fin ⟨0, UInt8.ofBitVec b, []⟩ ∧
+      Dtn7.Gen.C17.Go.Fragment.FailBit ⟨0, UInt8.ofBitVec b⟩ = Frag.fail ⟨0, UInt8.ofBitVec b, []⟩ ∧
+      (Dtn7.Gen.C17.Go.Fragment.ReportFailure ⟨7, UInt8.ofBitVec b⟩).identifier =
+        (Frag.reportFailure ⟨7, UInt8.ofBitVec b, []⟩).ident ∧
+      Dtn7.Gen.C17.Go.nextSequenceNumber (UInt8.ofBitVec b) = nextSeq (UInt8.ofBitVec b) ∧
+      Dtn7.Gen.C17.Go.nextTransmissionId (UInt8.ofBitVec b) = nextTid (UInt8.ofBitVec b)) := by
+  constructor <;> decide
+
+/-- Stated on the translated code itself: what `NewFragment` packs, the accessors read back, for every
+sequence number below 32 and every flag combination. -/
+theorem go_bbc_header_roundtrip :
+    ∀ b : BitVec 8, b.toNat < 32 → ∀ s e f : Bool,
+      let fr := Dtn7.Gen.C17.Go.NewFragment 9 (UInt8.ofBitVec b) s e f
+      fr.TransmissionID = 9 ∧ fr.SequenceNumber = UInt8.ofBitVec b ∧ fr.StartBit = s ∧ fr.EndBit = e ∧ fr.FailBit = f := by
+  decide
+
 example : (mkFrag 7 15 true false false [1]).bytes = [7, 0x7C, 1] := by decide
 end
 
